@@ -84,6 +84,15 @@ def scenarios(tier, fv):
     # an ancestor whose process name contains ") S <pid>": the walk of exclude_spawns_of must take the LAST ')' of /proc/<pid>/stat
     sc("ancestor-name-with-paren", [b"output = file:@D@/out.log", b'message_format = "a %{cmdline} %{rpname}"', b'filter_chain = "exclude_spawns_of:cron,backupd"'],
        setup=["parentname\ta) S %d"], quick=True, faults=False)
+    # the log file is there and writable, but another open file description holds an exclusive flock on it (log shipper, rotation job)
+    sc("sink-file-flocked-by-another", [b"output = file:@D@/locked.log", b'message_format = "m %{cmdline}"'], setup=["flockfile\t@D@/locked.log"], quick=True, faults=False)
+    # the caller's working directory has been removed: getcwd() fails with ENOENT for real (message format, path template and ident all use %{cwd})
+    sc("cwd-removed", [b"output = file:@D@/o-%{cwd}.log", b'message_format = "w %{cwd} %{cmdline}"'], setup=["rmcwd\t@D@/gone"], quick=True, faults=False)
+    # error logging on + an output that fails + the CALLER's stdout and stderr are reader-less / full pipes: a failed dispatch must not be reported there
+    sc("errlog-failing-output-caller-pipes-readerless", [b"error_logging = yes", b"output = file:@D@/nodir/out.log", b'message_format = "m %{cmdline}"'],
+       setup=["stdfd\t1\tpipe-noreader", "stdfd\t2\tpipe-noreader"], world=("absent", "noreader", "noreader", "1"), quick=True, faults=False)
+    sc("errlog-failing-output-caller-pipes-full", [b"error_logging = yes", b"output = socket:@D@/nothing.sock", b'message_format = "m %{cmdline}"'],
+       setup=["stdfd\t1\tpipe-full", "stdfd\t2\tpipe-full"], world=("absent", "full", "full", "1"), quick=True, faults=False)
     sc("sink-socket-absent", [b"output = socket:@D@/nothing.sock", b'message_format = "m %{cmdline}"'], world=("absent", "plain", "plain", "1"), quick=True, faults=False)
     sc("sink-socket-full-unread", [b"output = socket:@D@/s.sock", b'message_format = "m %{cmdline}"'], setup=["dgram\t@D@/s.sock\t1"], world=("dgramfull", "plain", "plain", "1"), quick=True, faults=False)
     sc("sink-devlog-absent", [b"output = devlog"], setup=["devlog-absent\t@D@/nothing.sock"], world=("absent", "plain", "plain", "1"), quick=True, faults=False)
